@@ -742,6 +742,226 @@ def hedge_sequence_entry_points(ctx, torch, g):
                          key=f"hedger.{entry}:hedge-as-{seq}:differs-from-list", detail={"sequence": v_s.tolist(), "list": v_l.tolist()})
 
 
+def container_state(cont):
+    """what the caller can observe of a container of Python objects: its type, its length, and each element (numbers: type and value;
+    anything else, e.g. an instrument: the object itself)"""
+    return (type(cont).__name__, [(type(x).__name__, x) if isinstance(x, (int, float)) else ("object", id(x)) for x in cont])
+
+
+# deterministic corpus (every tier, every seed) of the class "ONE cost container kept by the caller and passed to several pl /
+# terminal_value calls": (container kind, dtype, functions used in turn, shapes (N, H, T) of the successive hedging problems).
+# "single-*": one rate for every instrument (the number of instruments changes from call to call); "full-*": one rate per instrument
+REUSE_CORPUS = [
+    ("single-list", "float64", ("pl",), [(3, 2, 4), (4, 1, 5), (2, 3, 2), (1, 1, 2)]),
+    ("single-list", "float64", ("terminal_value",), [(2, 3, 3), (2, 1, 4), (3, 2, 2)]),
+    ("single-list", "float32", ("pl", "terminal_value"), [(2, 2, 3), (3, 1, 3), (1, 3, 2)]),
+    ("single-list", "float64", ("terminal_value", "pl"), [(2, 1, 3), (2, 4, 3), (3, 2, 2), (1, 1, 4)]),
+    ("single-int-list", "float64", ("pl", "terminal_value"), [(2, 2, 3), (2, 1, 2), (1, 3, 3)]),
+    ("single-tuple", "float64", ("pl", "terminal_value"), [(2, 2, 3), (2, 1, 3), (1, 3, 2)]),
+    ("full-list", "float64", ("pl", "terminal_value"), [(3, 2, 4), (1, 2, 2), (4, 2, 6)]),
+    ("full-list", "float64", ("terminal_value", "pl"), [(2, 1, 3), (5, 1, 2), (1, 1, 7)]),
+    ("full-list", "float32", ("pl",), [(2, 3, 2), (1, 3, 4), (3, 3, 3)]),
+    ("full-tuple", "float64", ("pl", "terminal_value"), [(2, 3, 3), (1, 3, 5)]),
+]
+
+
+def reused_cost_containers(ctx, torch, g):
+    """The caller keeps ONE container of cost rates (a list or a tuple; one rate for every instrument, or one rate per instrument; rates
+    written as floats or as Python ints) and hands the SAME object to several pl / terminal_value calls: hedging problems with other
+    numbers of paths and time steps and - for the single rate - other numbers of hedging instruments.  Predicates, per call: the call
+    succeeds; its value is the wealth identity at the rates the caller wrote into the container (exact Fractions: dyadic grids of
+    gen_functional, under the same exactness guard); afterwards the container still is what the caller wrote (type, length, elements).
+    Every call is also sent to the Lean op "pl"."""
+    from pfhedge.nn.functional import pl, terminal_value
+    n_random = 40 if ctx.tier == "quick" else 600
+    reqs, metas = [], []
+    for it in range(len(REUSE_CORPUS) + n_random):
+        if it < len(REUSE_CORPUS):
+            kind, dtype, fns, shapes = REUSE_CORPUS[it]
+        else:
+            kind = g.weighted([("single-list", 4), ("single-tuple", 1), ("single-int-list", 1), ("full-list", 3), ("full-tuple", 1), ("full-int-list", 0.5)])
+            dtype = g.weighted([("float64", 3), ("float32", 1)])
+            fns = tuple(g.choice(["pl", "terminal_value"]) for _ in range(g.randint(1, 3)))
+            dims = (1, 2, 3) if dtype == "float32" else (1, 2, 3, 4, 5)
+            H0 = g.choice(dims[:4])
+            shapes = [(g.choice(dims), g.choice(dims[:4]) if kind.startswith("single") else H0, g.choice(dims[1:] + (6,))) for _ in range(g.randint(2, 4))]
+        sb, ub, cb, smax, ulim, cmax = (4, 4, 8, 15, 4, 16) if dtype == "float64" else (2, 2, 4, 7, 2, 4)
+        dt = getattr(torch, dtype)
+        n_rates = 1 if kind.startswith("single") else shapes[0][1]
+        if "int" in kind:
+            rates = [g.choice([0, 1, 1, 2]) for _ in range(n_rates)]          # Python ints
+            if kind.startswith("single"):
+                rates = [g.choice([1, 2])]
+        else:
+            rates = [float(F(g.randint(-cmax // 2, cmax), 1 << cb)) for _ in range(n_rates)]
+            if kind.startswith("single") and rates[0] == 0:
+                rates = [float(F(1, 1 << cb))]
+        cont = tuple(rates) if kind.endswith("tuple") else list(rates)          # the caller's container: the SAME object in every call
+        written = container_state(cont)
+        changed_reported = False
+        ctx.stats[f"reuse:cost={kind}"] += 1
+        for k, (N, H, T) in enumerate(shapes):
+            fn_name = fns[k % len(fns)]
+            neg_spot = g.chance(0.2)
+            spot = [[[g.dy(-smax, smax, sb) if neg_spot else g.dy(F(1, 4), smax, sb) for _ in range(T)] for _ in range(H)] for _ in range(N)]
+            unit = []
+            for _ in range(N):
+                rows = []
+                for _ in range(H):
+                    row = []
+                    for t in range(T):
+                        row.append(row[-1] if (row and g.chance(0.2)) else g.dy(-ulim, ulim, ub))
+                    rows.append(row)
+                unit.append(rows)
+            payoff = [g.dy(0, 8, sb) for _ in range(N)] if g.chance(0.7) else None
+            first = g.chance(0.6)
+            full = [F(r) for r in rates] * (H if n_rates == 1 else 1)          # the rates the caller wrote, one per instrument
+            req = {"op": "pl", "ss": [N, H, T], "su": [N, H, T], "spot": enc_rat(spot), "unit": enc_rat(unit), "cost": enc_rat([F(r) for r in rates]),
+                   "payoff": None if payoff is None else {"dim": 1, "data": enc_rat(payoff)}, "first": first, "final": False, "tv": fn_name == "terminal_value"}
+            case = {"fn": fn_name, "dtype": dtype, "cost_argument": f"the caller's {type(cont).__name__} {rates!r}, the same object as in the {k} earlier call(s) of this sequence",
+                    "earlier_calls": [[fns[j % len(fns)], list(shapes[j])] for j in range(k)],
+                    "ss": [N, H, T], "spot": req["spot"], "unit": req["unit"], "cost": req["cost"], "payoff": req["payoff"], "first": first}
+            ok = all(exact_sum_ok(terms_for_guard(s, u, full) + ([z] if z is not None else []), MANT[dtype])
+                     for s, u, z in zip(spot, unit, payoff or [None] * N))
+            ctx.case(case, ok and any(r != 0 for r in rates), tag="reused_cost_container")
+            ctx.traces += 1
+            kw = dict(cost=cont, deduct_first_cost=first)
+            if payoff is not None:
+                kw["payoff"] = torch.tensor([float(x) for x in payoff], dtype=dt)
+            t3 = lambda x: torch.tensor([[[float(v_) for v_ in r] for r in p_] for p_ in x], dtype=dt)
+            st, v, mut = call_impl(pl if fn_name == "pl" else terminal_value, t3(spot), t3(unit), **kw)
+            if mut:
+                ctx.mutated("functional." + fn_name, mut, case)
+            now = container_state(cont)
+            if now != written and not changed_reported:
+                changed_reported = True
+                ctx.fail(f"functional.{fn_name} changes the caller's container of cost rates (the argument `cost`): after the call it no longer holds the rates the "
+                         "caller wrote (type, length, elements), so the next hedging problem the caller evaluates with it is charged other rates",
+                         case, key=f"functional.{fn_name}:cost-container-changed",
+                         detail={"written": repr(written), "after_the_call": repr(now)})
+            if st != "ok":
+                ctx.fail(f"functional.{fn_name} raises on a well-shaped input when the cost rates come in a container the caller has passed to earlier calls", case,
+                         key=f"functional.{fn_name}:error:reused-cost-container", detail={"error": v, "container_now": repr(now), "written": repr(written)})
+                continue
+            if tuple(v.shape) != (N,) or v.dtype != dt:
+                ctx.fail(f"functional.{fn_name} with a cost container used before: the result has not one value per path in the dtype of the prices", case,
+                         key=f"functional.{fn_name}:shape:reused-cost-container", detail={"shape": list(v.shape), "dtype": str(v.dtype)})
+                continue
+            if not ok:
+                ctx.stats["skipped_inexact"] += 1
+                continue
+            got = tensor_to_fracs(v)
+            exp = [wealth(s, u, full, z, first) for s, u, z in zip(spot, unit, payoff or [None] * N)]
+            if got != exp:
+                ctx.fail(f"functional.{fn_name} differs from the self-financing wealth identity at the rates the caller wrote into the cost container, when the same "
+                         "container object has been passed to earlier calls (other numbers of paths / instruments / time steps)", case,
+                         key=f"functional.{fn_name}:value:reused-cost-container",
+                         detail={"impl": enc_rat(got), "wealth": enc_rat(exp), "container_now": repr(now), "written": repr(written)})
+            reqs.append(req)
+            metas.append((case, got))
+    try:
+        outs = [model_result(m) for m in ctx.driver(reqs)]
+    except DriverBroken as e:
+        ctx.ties_broken.append({"kind": "driver", "detail": str(e)[:1500]})
+        outs = []
+    for (case, got), rm in zip(metas, outs):
+        if ("ok", got) != rm:
+            ctx.disagree("pl", case, ("ok", enc_rat(got)), (rm[0], enc_rat(rm[1]) if rm[0] == "ok" else rm[1]), note="cost container reused across calls")
+
+
+def reused_hedge_containers(ctx, torch, g):
+    """The caller keeps ONE collection of hedging instruments (a list, an instance of a sub-class of list, a user-defined sequence, a
+    tuple) and hands the SAME object to every entry point of the Hedger taking `hedge=` (compute_hedge, compute_portfolio, compute_pl,
+    compute_pnl, compute_loss, price, fit), of two hedgers, for two derivatives on the stock (other maturities, other numbers of paths).
+    Predicates, per call: the call succeeds; compute_pl / compute_portfolio / compute_pnl are the wealth identity on the instruments'
+    current prices, the hedge computed for (a fresh list of) them, their cost rates and the payoff (exact Fractions of the float64 data;
+    1e-13 of the sum of the absolute terms for the float64 summation); afterwards the collection still holds exactly the instruments the
+    caller put into it, in order."""
+    from pfhedge.instruments import BrownianStock, EuropeanOption, LookbackOption
+    from pfhedge.nn import Hedger
+    ENTRY = ["compute_hedge", "compute_portfolio", "compute_pl", "compute_pnl", "compute_loss", "price", "fit"]
+    corpus = [("list", 2), ("list", 1), ("list", 3), ("list_subclass", 2), ("userlist", 2), ("tuple", 2)]
+    n_random = 2 if ctx.tier == "quick" else 30
+    for it in range(len(corpus) + n_random):
+        seq, nh = corpus[it] if it < len(corpus) else (g.choice(["list", "list", "list_subclass", "userlist", "tuple"]), g.choice([1, 2, 3]))
+        costs = [F(g.choice([0, 1, 2, 8, -4]), 256) for _ in range(nh)]
+        quotes = [(g.choice([F(1, 2), F(1), F(2)]), g.choice([F(0), F(1, 4), F(-1, 4)])) for _ in range(nh - 1)]
+        stock = BrownianStock(cost=float(costs[0]), dtype=torch.float64)
+        steps = [g.choice([2, 3]), g.choice([4, 5])]
+        derivs = [EuropeanOption(stock, maturity=steps[0] * stock.dt), LookbackOption(stock, maturity=steps[1] * stock.dt)]
+        instruments = [stock]
+        for (a, b0), cst in zip(quotes, costs[1:]):
+            o = EuropeanOption(stock, strike=1.0, maturity=steps[1] * stock.dt)
+            o.list(lambda d, a=float(a), b0=float(b0): d.ul().spot * a + b0, cost=float(cst))      # listed through a closed formula of the stock's current price
+            instruments.append(o)
+        hedgers, weights = [], []
+        for mkind in ("linear", "prev"):
+            nin = 2 + (nh if mkind == "prev" else 0)
+            w = [[g.choice([F(-1), F(-1, 2), F(1, 2), F(1), F(1, 4)]) for _ in range(nin)] for _ in range(nh)]
+            b = [g.choice([F(0), F(1, 2), F(-1, 4)]) for _ in range(nh)]
+            lin = torch.nn.Linear(nin, nh, dtype=torch.float64)
+            with torch.no_grad():
+                lin.weight.copy_(torch.tensor([[float(x) for x in r] for r in w], dtype=torch.float64))
+                lin.bias.copy_(torch.tensor([float(x) for x in b], dtype=torch.float64))
+            hedgers.append(Hedger(lin, ["moneyness", "time_to_maturity"] + (["prev_hedge"] if mkind == "prev" else [])))
+            weights.append({"inputs": str(hedgers[-1].inputs), "w": enc_rat(w), "b": enc_rat(b)})
+        book = as_sequence(seq, instruments)            # the caller's collection: the SAME object in every call
+        entries = list(ENTRY)
+        g.r.shuffle(entries)
+        calls = [(e, g.randint(0, 1), g.randint(0, 1), g.choice([1, 2, 3, 5]), g.randint(0, 10 ** 6), g.chance(0.4)) for e in entries + [g.choice(ENTRY[:4]) for _ in range(2)]]
+        base = {"hedge_argument": f"the caller's {seq} of the instruments, the same object in every call of the sequence",
+                "instruments": ["the derivatives' stock"] + [f"option on it listed at {rat_str(a)} S + {rat_str(b0)}" for a, b0 in quotes], "cost": enc_rat(costs),
+                "derivatives": [f"EuropeanOption, {steps[0]} steps", f"LookbackOption, {steps[1]} steps"], "hedgers": weights,
+                "calls": [{"entry": e, "hedger": hi, "derivative": di, "n_paths": N, "torch_seed": sd, "hedge_by_keyword": kwd} for e, hi, di, N, sd, kwd in calls]}
+        ctx.stats[f"reuse:hedge={seq}"] += 1
+        changed_reported = False
+        for k, (entry, hi, di, N, sd, kwd) in enumerate(calls):
+            hedger, deriv = hedgers[hi], derivs[di]
+            case = base | {"call": k}
+            ctx.case(case, True, tag="reused_hedge_container")
+            ctx.traces += 1
+            torch.manual_seed(sd)
+            a, kw = ((deriv,), {"hedge": book}) if kwd else ((deriv, book), {})
+            if entry in ("compute_hedge", "compute_portfolio", "compute_pl"):
+                deriv.simulate(n_paths=N)
+                with torch.no_grad():
+                    st, v, _ = call_impl(getattr(hedger, entry), *a, **kw)
+            elif entry == "compute_pnl":
+                with torch.no_grad():
+                    st, v, _ = call_impl(hedger.compute_pnl, *a, n_paths=N, **kw)
+            elif entry == "fit":
+                st, v, _ = call_impl(hedger.fit, *a, n_epochs=2, n_paths=N, n_times=1, verbose=False, **kw)
+            else:
+                st, v, _ = call_impl(getattr(hedger, entry), *a, n_paths=N, n_times=2, enable_grad=False, **kw)
+            held = list(book)
+            if (len(held) != nh or any(x is not y for x, y in zip(held, instruments))) and not changed_reported:
+                changed_reported = True
+                ctx.fail(f"Hedger.{entry} changes the caller's collection of hedging instruments (the argument `hedge`): after the call it no longer holds exactly the "
+                         "instruments the caller put into it, in order", case, key=f"hedger.{entry}:hedge-container-changed",
+                         detail={"length_before": nh, "length_after": len(held), "same_objects": [any(x is y for y in instruments) for x in held]})
+            if st != "ok":
+                ctx.fail(f"Hedger.{entry} raises when the hedging instruments come in a {seq} the caller has passed to earlier calls (other entry points, hedgers, derivatives, "
+                         "numbers of paths)", case, key=f"hedger.{entry}:error:reused-hedge-{seq}", detail=v)
+                continue
+            if entry in ("compute_portfolio", "compute_pl", "compute_pnl"):
+                # the market left by the call; the hedge of a FRESH list of the instruments the caller put into the collection
+                with torch.no_grad():
+                    un = tensor_to_fracs(hedger.compute_hedge(deriv, list(instruments)))
+                    sp = tensor_to_fracs(torch.stack([h.spot for h in instruments], dim=1))
+                    pf = None if entry == "compute_portfolio" else tensor_to_fracs(deriv.payoff())
+                got = tensor_to_fracs(v) if tuple(v.shape) == (N,) else None
+                for n in range(N if got is not None else 0):
+                    exp = wealth(sp[n], un[n], costs, pf[n] if pf is not None else None, True)
+                    scale = sum(abs(t_) for t_ in terms_for_guard(sp[n], un[n], costs)) + (abs(pf[n]) if pf is not None else 0) + 1
+                    if not isinstance(got[n], F) or abs(got[n] - exp) > F(1, 10 ** 13) * scale:
+                        got = None
+                        break
+                if got is None:
+                    ctx.fail(f"Hedger.{entry} differs from the wealth identity on the current prices of the instruments the caller put into the collection, the hedge computed "
+                             f"for them, their cost rates and the payoff, when the same {seq} object has been passed to earlier calls", case,
+                             key=f"hedger.{entry}:value:reused-hedge-{seq}", detail={"impl": v.tolist(), "prices": enc_rat(sp), "hedge": enc_rat(un)})
+
+
 def check(ctx):
     torch, pfhedge = import_impl()
     g = ctx.gen
@@ -958,6 +1178,8 @@ def check(ctx):
                              note=("composed model hedgerPL/hedgerPortfolio from the generated data alone; " + note)[:700])
     nondyadic_cost_rates(ctx, torch, g)
     hedge_sequence_entry_points(ctx, torch, g)
+    reused_cost_containers(ctx, torch, g)
+    reused_hedge_containers(ctx, torch, g)
     return ctx.finish(
         rule="functional: random (N,H,T) shapes with dyadic spot/unit/payoff/cost grids sized so float64/float32 commit no rounding; "
              "non-trivial = well-shaped, some cost rate != 0, non-constant prices, positions of both signs, T>=2. "
@@ -969,6 +1191,9 @@ def check(ctx):
              "compute_hedge(default) == compute_hedge(list(underliers)); with primary and listed hedges (cost rates zero / positive / negative / tiny, incl. books whose only frictions are rebates), hedge-then-P&L and P&L-first call orders; "
              "explicit hedges handed over as a list / tuple / instance of a sub-class of list / user-defined sequence (compute_hedge == that of the list; P&L and portfolio value the identity; deterministic corpus of 8 + random), "
              "and all entry points taking hedge= (compute_hedge/portfolio/pl/pnl/loss, price, fit) on a simulated market with such a sequence: succeed, the identity, bit for bit the list's result from the same seed; "
+             "caller-owned containers reused across calls: ONE cost list / tuple (a single rate for all instruments with changing H, or one rate per instrument; floats or Python ints) handed to several pl / terminal_value calls "
+             "of other shapes, and ONE hedge list / sub-class of list / user-defined sequence / tuple handed to every hedge= entry point of two hedgers for two derivatives: each call succeeds and is the identity at what the "
+             "caller wrote, and the container is unchanged afterwards (deterministic corpus of 10 + 6 sequences, plus random ones; the pl calls also go to the Lean op pl); "
              "every hedger scenario and round is also run through the composed model `hedgerPL`/`hedgerPortfolio` (op hedger_pl) from the generated data alone; "
              "non-trivial = hedge moves, some cost rate != 0, exactly representable. distinct = sha1 of the canonical case.")
 
